@@ -11,9 +11,9 @@ SKEYS = ["a", "b c", "k", "é"]
 IKEYS = [0, 1, -1, 7]
 LIST_T = ["li", "ls", "lo", "ln", "lb", "lg"]
 BIGS = [0, 5, 7, -3, 99999999999, -99999999999]
-MAP_T = ["msi", "mis", "msl", "mbs", "mso"]
+MAP_T = ["msi", "mis", "msl", "mbs", "mso", "mii"]
 TYPE_SRC = {"li": "[int...]", "ls": "[str...]", "lo": "[int?...]", "ln": "[[int...]...]",
-            "msi": "map[str, int]", "mis": "map[int, str]", "msl": "map[str, [int...]]", "mbs": "map[bool, str]", "mso": "map[str, int?]",
+            "msi": "map[str, int]", "mis": "map[int, str]", "msl": "map[str, [int...]]", "mbs": "map[bool, str]", "mso": "map[str, int?]", "mii": "map[int, int]",
             "lb": "[bool...]", "lg": "[bigint...]"}
 
 CALLBACKS = {
@@ -205,7 +205,7 @@ class Interp:
             elif t == "msl":
                 obj = Obj(t, {})
             elif t in MAP_T:
-                obj = Obj(t, dict((kk, vv) for kk, vv in op["init"]))
+                obj = Obj(t, dict((kk, vv) for kk, vv in op["init"]))      # a repeated key: the last entry wins
             else:
                 obj = Obj(t, list(op["init"]))
             name = self.fresh(t, obj)
@@ -217,8 +217,15 @@ class Interp:
                     em.code("%s[%s] = %s" % (name, lit(kk), lit(vv)))
             elif t in MAP_T:
                 if obj.data:
-                    body = ", ".join("%s: %s" % (lit(kk), lit(vv)) for kk, vv in obj.data.items())
-                    em.code("%s = %s {%s}" % (name, TYPE_SRC[t], body))
+                    parts = []
+                    for q, (kk, vv) in enumerate(op["init"]):
+                        if t == "msi" and q == 0 and sum(1 for x in op["init"] if x[0] == kk) > 1:
+                            # the first of two equal keys is spelled through a variable: equal only at run time
+                            em.code("kdup%d = %s" % (self.n, lit(kk)))
+                            parts.append("kdup%d: %s" % (self.n, lit(vv)))
+                        else:
+                            parts.append("%s: %s" % (lit(kk), lit(vv)))
+                    em.code("%s = %s {%s}" % (name, TYPE_SRC[t], ", ".join(parts)))
                 else:
                     em.code("%s = %s" % (name, TYPE_SRC[t]))
             else:
@@ -337,6 +344,17 @@ class Interp:
             return True
         if k == "push_from":
             b = self.vars.get(op.get("b"))
+            if a.t == "lo" and b is not None and b.t == "li" and b.data:
+                # the pushed element is the optional another container call handed back; the list is then searched for
+                # the plain value (and for nil)
+                v = b.data[op["i"] % len(b.data)] if op["i"] % 3 else op.get("v", 0)
+                em.code("%s.push(%s.index_of(%s))" % (an, op["b"], lit(v)))
+                found = b.data.index(v) if v in b.data else None
+                a.data.append(found)
+                for needle in (found, None, 0):
+                    em.code("print %s.index_of(%s)" % (an, lit(needle)))
+                    em.out(str(a.data.index(needle)) if needle in a.data else "nil")
+                return True
             if a.t != "li" or b is None or b.t != "li" or not b.data:
                 return False
             i = op["i"] % len(b.data)
@@ -596,6 +614,8 @@ class Interp:
         else:
             kt_ok = lambda x: isinstance(x, int) and not isinstance(x, bool)
         vt_ok = (lambda x: isinstance(x, int) and not isinstance(x, bool)) if a.t == "msi" else (lambda x: isinstance(x, str))
+        if a.t == "mii":
+            vt_ok = lambda x: isinstance(x, int) and not isinstance(x, bool)
         if a.t == "mso":
             # optional values: a key present with value nil is still a key of the map
             vt_ok = lambda x: x is None or (isinstance(x, int) and not isinstance(x, bool))
@@ -611,6 +631,18 @@ class Interp:
                 return False
             em.code("%s[%s] = %s" % (an, lit(key), lit(op["v"])))
             a.data[key] = op["v"]
+            return True
+        if k == "mself":
+            # the key of the assignment is itself read out of the same map: m[m[k]] = v
+            if a.t != "mii" or not kt_ok(key) or key not in a.data or not vt_ok(op.get("v")):
+                return False
+            k2 = a.data[key]
+            if op.get("i", 0) % 2 and k2 in a.data:
+                em.code("%s[%s[%s]] += %s" % (an, an, lit(key), lit(op["v"])))
+                a.data[k2] = a.data[k2] + op["v"]
+            else:
+                em.code("%s[%s[%s]] = %s" % (an, an, lit(key), lit(op["v"])))
+                a.data[k2] = op["v"]
             return True
         if k == "mwrite_from":
             b = self.vars.get(op.get("b"))
@@ -705,11 +737,11 @@ def pick_index(rng, n):
 
 LIST_KINDS = [("push", 6), ("remove", 4), ("read", 4), ("write", 4), ("opassign", 3), ("reverse", 2), ("join", 2),
               ("clear", 1), ("clone", 2), ("alias", 3), ("map", 3), ("filter", 3), ("index_of", 3), ("len", 2),
-              ("eq", 2), ("concat", 2), ("bind", 2), ("push_fn", 1), ("new_from", 2), ("cap_call", 2), ("push_from", 1),
+              ("eq", 2), ("concat", 2), ("bind", 2), ("push_fn", 1), ("new_from", 2), ("cap_call", 2), ("push_from", 2),
               ("tmp_nest", 2), ("filter_len", 2), ("unary_read", 2), ("chain2", 2)]
 MAP_KINDS = [("mwrite", 6), ("mread", 4), ("mopassign", 3), ("replace", 3), ("mremove", 3), ("contains", 3), ("len", 2),
              ("keys", 2), ("values", 2), ("pairs", 2), ("clear", 1), ("clone", 2), ("alias", 3), ("keys_len", 1),
-             ("mwrite_fn", 1), ("cap_call", 2), ("mwrite_from", 1), ("mwrite_keyfrom", 2)]
+             ("mwrite_fn", 1), ("cap_call", 2), ("mwrite_from", 1), ("mwrite_keyfrom", 2), ("mself", 2)]
 LIST_KIND_NAMES = [k for k, _ in LIST_KINDS]
 MAP_KIND_NAMES = [k for k, _ in MAP_KINDS]
 
@@ -719,7 +751,7 @@ def gen_op(rng, it):
     lists = [x for x in names if it.vars[x].t in LIST_T]
     maps = [x for x in names if it.vars[x].t in MAP_T]
     if not names or (len(names) < 3 and rng.chance(1, 3)):
-        t = rng.weighted([("li", 4), ("ls", 2), ("lo", 2), ("ln", 2), ("msi", 3), ("mis", 2), ("msl", 2), ("lb", 1), ("lg", 1), ("mbs", 1), ("mso", 2)])
+        t = rng.weighted([("li", 4), ("ls", 2), ("lo", 2), ("ln", 2), ("msi", 3), ("mis", 2), ("msl", 2), ("lb", 1), ("lg", 1), ("mbs", 1), ("mso", 2), ("mii", 2)])
         if t == "li":
             init = [rng.choice(INTS) for _ in range(rng.range(0, 4))]
         elif t == "ls":
@@ -738,10 +770,16 @@ def gen_op(rng, it):
             init = []
         elif t == "msi":
             init = [[kk, rng.choice(INTS)] for kk in rng.sample(SKEYS, rng.range(0, 3))]
+            if init and rng.chance(1, 3):
+                init.append([init[0][0] if rng.chance(1, 2) else init[-1][0], rng.choice(INTS)])      # a key written twice
         elif t == "mso":
             init = [[kk, rng.choice(INTS + [None, None])] for kk in rng.sample(SKEYS, rng.range(0, 3))]
+        elif t == "mii":
+            init = [[kk, rng.choice(IKEYS)] for kk in rng.sample(IKEYS, rng.range(1, 3))]
         else:
             init = [[kk, rng.choice(STRS)] for kk in rng.sample(IKEYS, rng.range(0, 3))]
+            if init and rng.chance(1, 3):
+                init.append([init[0][0], rng.choice(STRS)])
         return {"op": "new", "t": t, "init": init}
     if rng.chance(1, 12):
         return {"op": "src_bump"}
@@ -766,7 +804,7 @@ def gen_op(rng, it):
             cands = [x for x in lists if it.vars[x].t == "li"]
             if not cands:
                 return {"op": "len", "a": a}
-            return {"op": kind, "a": a, "b": rng.choice(cands), "i": rng.below(8)}
+            return {"op": kind, "a": a, "b": rng.choice(cands), "i": rng.below(8), "v": rng.choice(INTS)}
         if kind in ("push", "write", "opassign", "index_of", "push_fn"):
             if o.t == "lb":
                 op["v"] = rng.chance(1, 2)
@@ -843,6 +881,12 @@ def gen_op(rng, it):
     elif o.t == "mso":
         op["k"] = rng.choice(SKEYS)
         op["v"] = rng.choice(INTS + [None, None, None])
+    elif o.t == "mii":
+        op["k"] = rng.choice(IKEYS)
+        op["v"] = rng.choice(IKEYS)
+        op["i"] = rng.below(4)
+        if kind == "mself" and o.data:
+            op["k"] = rng.choice(sorted(o.data.keys()))
     else:
         op["k"] = rng.choice(IKEYS)
         op["v"] = rng.choice(STRS)
